@@ -112,33 +112,36 @@ Unbound == [rcs |-> <<>>, held |-> NoHeld, forced |-> {}]
 (* Result: new h, dk, the runs in completion order, err, and the value.    *)
 (***************************************************************************)
 RECURSIVE Eval(_, _, _, _, _), PullAll(_, _, _, _, _, _, _, _)
+\* (fc is threaded through: a run that SUCCEEDS un-forces its object - forcing asks for exactly one recomputation;
+\*  a run that fails leaves it forced)
 Eval(h, dk, fc, d, F) ==
   IF h[d] # <<>>
-    THEN [h |-> h, dk |-> dk, runs |-> <<>>, err |-> FALSE, v |-> h[d][1]]              \* held in memory
+    THEN [h |-> h, dk |-> dk, fc |-> fc, runs |-> <<>>, err |-> FALSE, v |-> h[d][1]]   \* held in memory
   ELSE IF PersD(d) /\ dk[KeyOf[d]] # <<>> /\ d \notin fc
-    THEN [h |-> [h EXCEPT ![d] = dk[KeyOf[d]]], dk |-> dk, runs |-> <<>>, err |-> FALSE,
+    THEN [h |-> [h EXCEPT ![d] = dk[KeyOf[d]]], dk |-> dk, fc |-> fc, runs |-> <<>>, err |-> FALSE,
           v |-> dk[KeyOf[d]][1]]                                                        \* loaded, upstream untouched
   ELSE LET R == PullAll(h, dk, fc, PullD(d), 1, <<>>, <<>>, F) IN                       \* run
-    IF R.err THEN [h |-> R.h, dk |-> R.dk, runs |-> R.runs, err |-> TRUE, v |-> 0]
-    ELSE IF d \in F THEN [h |-> R.h, dk |-> R.dk, runs |-> Append(R.runs, d), err |-> TRUE, v |-> 0]
+    IF R.err THEN [h |-> R.h, dk |-> R.dk, fc |-> R.fc, runs |-> R.runs, err |-> TRUE, v |-> 0]
+    ELSE IF d \in F THEN [h |-> R.h, dk |-> R.dk, fc |-> R.fc, runs |-> Append(R.runs, d), err |-> TRUE, v |-> 0]
     ELSE LET val == IF \A j \in 1..Len(R.vals) : R.vals[j] = PullD(d)[j] THEN d ELSE 0 IN
          [h |-> [R.h EXCEPT ![d] = <<val>>],
           dk |-> IF PersD(d) THEN [R.dk EXCEPT ![KeyOf[d]] = <<val>>] ELSE R.dk,
+          fc |-> R.fc \ {d},
           runs |-> Append(R.runs, d), err |-> FALSE, v |-> val]
 PullAll(h, dk, fc, ins, j, vals, runs, F) ==
-  IF j > Len(ins) THEN [h |-> h, dk |-> dk, vals |-> vals, runs |-> runs, err |-> FALSE]
+  IF j > Len(ins) THEN [h |-> h, dk |-> dk, fc |-> fc, vals |-> vals, runs |-> runs, err |-> FALSE]
   ELSE LET E == Eval(h, dk, fc, ins[j], F) IN
-       IF E.err THEN [h |-> E.h, dk |-> E.dk, vals |-> vals, runs |-> runs \o E.runs, err |-> TRUE]
-       ELSE PullAll(E.h, E.dk, fc, ins, j + 1, Append(vals, E.v), runs \o E.runs, F)
+       IF E.err THEN [h |-> E.h, dk |-> E.dk, fc |-> E.fc, vals |-> vals, runs |-> runs \o E.runs, err |-> TRUE]
+       ELSE PullAll(E.h, E.dk, E.fc, ins, j + 1, Append(vals, E.v), runs \o E.runs, F)
 
 \* evaluate a set of objects one after the other (chain.force(recompute=True)); the order is the code's
 \* (iteration over a Python set) and does not influence the resulting state
 RECURSIVE EvalAll(_, _, _, _, _)
 EvalAll(h, dk, fc, S, runs) ==
-  IF S = {} THEN [h |-> h, dk |-> dk, runs |-> runs]
+  IF S = {} THEN [h |-> h, dk |-> dk, fc |-> fc, runs |-> runs]
   ELSE LET d == CHOOSE x \in S : TRUE
            E == Eval(h, dk, fc, d, {})
-       IN EvalAll(E.h, E.dk, fc, S \ {d}, runs \o E.runs)
+       IN EvalAll(E.h, E.dk, E.fc, S \ {d}, runs \o E.runs)
 
 \* history counters (kept only when Count = TRUE: they multiply the state space)
 CountRuns(rs) == IF Count
@@ -185,7 +188,7 @@ Request(s, m, n, f) ==
   /\ \E d \in {DescId[slot[s].rcs[m]][n]} :
      \E E \in {Eval(slot[s].held, disk, slot[s].forced, d, IF f = 0 THEN {} ELSE {f})} :
      /\ f # 0 => E.err                                            \* a fault that does not fire is no fault
-     /\ slot' = [slot EXCEPT ![s].held = E.h]
+     /\ slot' = [slot EXCEPT ![s].held = E.h, ![s].forced = E.fc]
      /\ disk' = E.dk
      /\ lastruns' = E.runs /\ lasterr' = E.err
      /\ nrun' = CountRuns(E.runs)
@@ -224,8 +227,8 @@ ForceStage(h, dk, fc, rc, T, rec, del) ==
       h1 == [d \in Ds |-> IF d \in marked THEN <<>> ELSE h[d]]
       d1 == IF del THEN [k \in Ks |-> IF \E d \in marked : PersD(d) /\ KeyOf[d] = k THEN <<>> ELSE dk[k]] ELSE dk
       f1 == fc \cup marked
-      R  == IF rec THEN EvalAll(h1, d1, f1, marked, <<>>) ELSE [h |-> h1, dk |-> d1, runs |-> <<>>]
-  IN [h |-> R.h, dk |-> R.dk, fc |-> f1, runs |-> R.runs, marked |-> marked]
+      R  == IF rec THEN EvalAll(h1, d1, f1, marked, <<>>) ELSE [h |-> h1, dk |-> d1, fc |-> f1, runs |-> <<>>]
+  IN [h |-> R.h, dk |-> R.dk, fc |-> R.fc, runs |-> R.runs, marked |-> marked]
 
 \* chain.force(...) on member m of slot s
 ChainForce(s, m, T, rec, del) ==
@@ -347,7 +350,8 @@ RunOnlyIfNeeded ==
   [][ \A i \in 1..Len(lastruns') : LET d == lastruns'[i] IN
         \/ ~PersD(d)
         \/ disk[KeyOf[d]] = <<>>
-        \/ \E s \in Slots : d \in slot'[s].forced
+        \/ \E s \in Slots : d \in slot[s].forced \cup slot'[s].forced
+        \/ (act'.name \in {"ChainForce", "MultiForce"} /\ act'.rec)      \* marked, recomputed and un-forced in one call
     ]_vars
 
 \* C04/C13: building another chain on a registry neither drops nor creates held values
@@ -364,7 +368,8 @@ ForceExact ==
         LET s == act'.s
             rc == slot[s].rcs[act'.m]
             M == Down(rc, {DescId[rc][n] : n \in act'.T}) IN
-        /\ slot'[s].forced = slot[s].forced \cup M
+        \* marked; whatever was recomputed (the marked ones, and forced objects upstream of them) is un-forced again
+        /\ slot'[s].forced = (slot[s].forced \cup M) \ {lastruns'[i] : i \in 1..Len(lastruns')}
         /\ \A d \in Ds \ M : slot'[s].held[d] = slot[s].held[d] \/ (act'.rec /\ slot[s].held[d] = <<>>)
         /\ act'.del /\ ~act'.rec => \A k \in Ks :
               disk'[k] = IF \E d \in M : PersD(d) /\ KeyOf[d] = k THEN <<>> ELSE disk[k]
@@ -381,7 +386,7 @@ MultiForceAll ==
         LET s == act'.s
             M1 == Down(slot[s].rcs[1], {DescId[slot[s].rcs[1]][n] : n \in act'.T})
             M2 == Down(slot[s].rcs[2], {DescId[slot[s].rcs[2]][n] : n \in act'.T}) IN
-        /\ slot'[s].forced = slot[s].forced \cup M1 \cup M2
+        /\ slot'[s].forced = (slot[s].forced \cup M1 \cup M2) \ {lastruns'[i] : i \in 1..Len(lastruns')}
         /\ act'.rec => \A d \in M1 \cup M2 :
               /\ slot'[s].held[d] = <<d>>
               /\ Cardinality({i \in 1..Len(lastruns') : lastruns'[i] = d}) \in 1..2
@@ -395,6 +400,14 @@ ForcedRuns ==
             d == DescId[slot[s].rcs[act'.m]][act'.n] IN
         (d \in slot[s].forced /\ slot[s].held[d] = <<>>) =>
             (\E i \in 1..Len(lastruns') : lastruns'[i] = d) /\ (PersD(d) => disk'[KeyOf[d]] = <<d>>)
+    ]_vars
+
+\* C07 "exactly once": a run that succeeded un-forces its object (whatever happens to the object's memory afterwards,
+\* the next request is served from the result), a run that failed leaves it forced
+ForcedExactlyOnce ==
+  [][ \A s \in Slots : \A d \in Ds :
+        (d \in slot[s].forced /\ d \notin slot'[s].forced /\ act'.name \in {"Request", "ChainForce", "MultiForce"})
+           => (\E i \in 1..Len(lastruns') : lastruns'[i] = d) /\ (PersD(d) => disk'[KeyOf[d]] # <<>>)
     ]_vars
 
 \* C07/C04: unforced, stored, not held: served from storage without any run
